@@ -13,6 +13,6 @@ def run(tier, seed):
     jobs.append({"prog": "exit", "strategy": "random", "runs": (60, 800), "args": ["--size", "60000", "65536"], "env": rof})
     jobs.append({"prog": "exit", "strategy": "random", "runs": (60, 800), "args": ["--size", "40", "200"], "env": rof})
     jobs.append({"prog": "exit", "strategy": "random", "runs": (40, 600), "args": ["--size", "600000", "1048576"], "env": None})
-    return concfam.run_conc("C09", tier, seed, jobs, GUARDS, mc=("MiAbandonMC", ("MiAbandon_mc.cfg", "MiAbandon_mc_thorough.cfg")), guided_progs=(),
+    return concfam.run_conc("C09", tier, seed, jobs, GUARDS, step_guards=concfam.STEP_GUARDS, mc=("MiAbandonMC", ("MiAbandon_mc.cfg", "MiAbandon_mc_thorough.cfg")), guided_progs=(),
                             assumptions=["the abandonment model has 3 threads in 2 sub-processes and 2 segments; reclaim-on-free on (a second configuration with it off is part of the thorough run)",
                                          "at the end every non-main thread is done, everything is freed and the main thread force-collects: every unit written through a block must have been purged or unmapped"])
